@@ -96,13 +96,14 @@ def _conf_worker(arg):
 
 
 def _search_worker(arg):
-    idx, seed, tries = arg
+    idx, seed, tries = arg[:3]
+    budget = arg[3] if len(arg) > 3 else None
     oset = _OSETS[idx]
     try:
         from pyvc import replay
         import logging
         logging.disable(logging.CRITICAL)
-        return idx, replay.search_native(oset.name, seed, tries)
+        return idx, replay.search_native(oset.name, seed, tries, budget_s=budget)
     except Exception as e:  # noqa: BLE001
         return idx, {"reproduced": False, "note": f"native search failed to run: {type(e).__name__}: {e}", "tries": 0}
 
@@ -314,6 +315,30 @@ def main(argv=None):
                     continue
                 violations.append((rj, name, ob))
 
+    # bounded stand-in (DESIGN.md 2.9): an obligation set the verifier could not decide on this tree (the code left
+    # the modelled subset, a loop contract no longer fits the loop, a solver gave no answer) is put to its native
+    # reading - the same proof script on the real package, random inputs inside the declared ranges.  A failing input is
+    # a violation with a native replay; otherwise the set is reported as *bounded* (never counted as proved) and
+    # does not make the run undecided.
+    standins = []
+    und_sets = sorted({n for n, _ in undecided})
+    if und_sets and os.environ.get("PYVC_NO_STANDIN") != "1" and not a.only:
+        cand = [i for i, rj in enumerate(results) if rj["name"] in und_sets and not rj["errors"]]
+        s_tries, s_budget = (1500, 60) if a.tier == "quick" else (8000, 300)
+        if cand:
+            with ctx.Pool(min(a.jobs, len(cand))) as pool:
+                for idx, sr in pool.imap_unordered(_search_worker, [(i, seed + 2000, s_tries, s_budget) for i in cand]):
+                    nm = _OSETS[idx].name
+                    if sr.get("reproduced"):
+                        native_search["failures"].append({"oset": nm, "failed": sr.get("failed"), "inputs": sr.get("inputs")})
+                    elif sr.get("tries", 0) > 0 and sr.get("evaluated", 0) > 0:
+                        reasons = [u for n, u in undecided if n == nm]
+                        standins.append({"set": nm, "why_not_proved": reasons[:5], "random_inputs_run_on_the_real_package": sr["tries"],
+                                         "obligation_evaluations": sr["evaluated"], "obligations_evaluated_natively": sr.get("checked_names", []),
+                                         "failing_inputs": 0, "label": "bounded (random testing of the executable contract; not a proof)"})
+        covered = {st["set"] for st in standins}
+        undecided = [(n, u) for n, u in undecided if n not in covered]
+
     for nf in native_search["failures"]:
         # a natively failing obligation that the verifier did not refute (or that is not a recorded finding)
         for oname in nf["failed"] or []:
@@ -360,6 +385,7 @@ def main(argv=None):
         bl = json.load(open(bl_path)).get(a.tier, {}).get(prop)
         if bl is not None:
             missing = [n for n in bl if n not in current_names]
+            missing = [n for n in missing if n.split(" :: ")[0] not in {st["set"] for st in standins}]
             if missing and exit_code in (0, 2):
                 # an obligation that used to be generated is gone: undecided paths may hide it
                 if not undecided and not errors:
@@ -392,7 +418,7 @@ def main(argv=None):
 
     # history lemmas (DESIGN.md 3.4): machine-checked induction from the step contracts discharged above to the
     # history statement; only reported when every step contract it rests on was discharged in this very run
-    history, h_errs, h_und = run_history_lemmas(prop, results, a.only)
+    history, h_errs, h_und = run_history_lemmas(prop, results, a.only, {st["set"] for st in standins})
     for e in h_errs:
         errors.append(e)
         if exit_code == 0:
@@ -418,7 +444,8 @@ def main(argv=None):
             "backends": backends, "solver_seconds": round(solver_secs, 2), "max_obligation_seconds": round(max_obl_secs, 2),
             "undecided": [f"{n}: {u}" for n, u in undecided], "checker_errors": [f"{n}: {e[:300]}" for n, e in errors],
             "bounded_stand_ins": {"obligations": bounded_total, "discharged": bounded_discharged,
-                                  "sets": [{"name": rj["name"], "bound": rj["bounded"]} for rj in results if rj["bounded"]]},
+                                  "sets": [{"name": rj["name"], "bound": rj["bounded"]} for rj in results if rj["bounded"]],
+                                  "undecided_sets_checked_natively_instead": standins},
             "known_findings_hit": [full for full, _ in known_hits],
             "refuted_obligations_not_counted_above": len(known_hits) + len(violations),
             "bounded_native_search": {"obligation_sets": native_search["osets"], "random_inputs_run_on_the_real_package": native_search["inputs"],
@@ -440,15 +467,22 @@ def main(argv=None):
         "wall_s": round(wall, 2),
         "violations": len(violations),
     }
+    if standins:
+        ev["coverage"]["note"] = (f"{len(standins)} obligation set(s) were not decided by the verifier on this tree and were checked by their bounded "
+                                  "native reading instead (bounded_stand_ins.undecided_sets_checked_natively_instead); they are not part of the proved count")
     if total == 0 or discharged != total:
         # a proof-level claim needs every obligation discharged; otherwise report honestly at level "other"
-        if violations or undecided or errors or known_hits:
+        if violations or undecided or errors or known_hits or standins:
             ev["coverage"]["note"] = "not all obligations discharged on this run; see undecided / violations / known findings"
     with open(os.path.join(OUT, "evidence", f"{prop}.json"), "w") as f:
         json.dump(ev, f, indent=1, default=str)
 
     for n, e in errors:
         lines.append(f"CHECKER-ERROR property={prop} set={n}: {e.splitlines()[0][:300]}")
+    for st in standins:
+        lines.append(f"BOUNDED-STAND-IN property={prop} set={st['set']}: not decided by the verifier ({st['why_not_proved'][0][:160]}); "
+                     f"{st['random_inputs_run_on_the_real_package']} random inputs on the real package, "
+                     f"{st['obligation_evaluations']} obligation evaluations, none failed - bounded, not counted as proved")
     for n, u in undecided[:20]:
         lines.append(f"UNDECIDED property={prop} set={n}: {u[:300]}")
     for l in lines:
@@ -547,7 +581,7 @@ def _connection_frame_fact():
     return bad
 
 
-def run_history_lemmas(prop, results, only):
+def run_history_lemmas(prop, results, only, standin_sets=frozenset()):
     path = os.path.join(VERIF, "lemmas", "hypotheses.json")
     out, errs, und = [], [], []
     if only or not os.path.exists(path):
@@ -562,6 +596,9 @@ def run_history_lemmas(prop, results, only):
                  "checker": "lean 4 kernel (lean <file>); allowed axioms: propext, Classical.choice, Quot.sound"}
         out.append(entry)
         missing = [o for o in hyps if o not in status]
+        if missing and all(o.split(" :: ")[0] in standin_sets for o in missing):
+            entry["status"] = "not applicable in this run: step contracts only checked by their bounded stand-in: " + "; ".join(missing[:3])
+            continue
         if missing:
             entry["status"] = "hypotheses missing"
             errs.append(("history-lemma", f"{len(missing)} step-contract obligations named by {lem['file']} are not generated, e.g. {missing[:2]}"))
